@@ -242,7 +242,7 @@ KV, KT, COSL = (z3.Const(n, Fld) for n in ('kv', 'kt', 'cos_lat'))
 TEQ, EXPF = U1('equilibrium_temperature'), U1('nodal_exp')
 
 
-def held_suarez_contract(en: E.Engine):
+def held_suarez_contract(en: E.Engine, mode='expression'):
   """HeldSuarezForcing.explicit_terms == Rayleigh drag on the wind and Newtonian relaxation of the temperature, as an operator expression:
        (vorticity, divergence) tendency = (curl, div) of to_modal(-kv * u cos(lat) / cos^2(lat)) with u cos(lat) the *unclipped* cos-lat wind of the state,
        temperature tendency = to_modal(-kt * (T_ref + T' - T_eq(exp(ln ps)))),   log-surface-pressure and tracer tendencies zero.
@@ -262,10 +262,37 @@ def held_suarez_contract(en: E.Engine):
   self = E.Obj(class_ref=hs.HeldSuarezForcing, coords=E.Obj(horizontal=g, vertical=E.Obj(layers=en.int('layers'), layer_thickness=Marker('thickness')), dycore_sharding=None),
                reference_temperature=TREF, kv=E.SymCallable(lambda en_: KV, 'kv() (coefficient clause of this property)'), kt=E.SymCallable(lambda en_: KT, 'kt()'),
                equilibrium_temperature=E.SymCallable(lambda en_, p: TEQ(p), 'equilibrium_temperature(p)'))
+ 
+  def run(z_, d_, t_, p_):
+    kind, out = en.invoke(en.getattr(self, 'explicit_terms'), mkstate(vorticity=z_, divergence=d_, temperature_variation=t_, log_surface_pressure=p_, tracers={'q': q}))
+    if kind == 'raise':
+      raise E.Unsupported(f'explicit_terms raised {out}')
+    return out
   en.cover('requires: radius > 0')
-  kind, out = en.invoke(en.getattr(self, 'explicit_terms'), mkstate(vorticity=zeta, divergence=delta, temperature_variation=T, log_surface_pressure=lnps, tracers={'q': q}))
-  if kind == 'raise':
-    en.ensure(f'explicit_terms runs ({out})', False)
+  out = run(zeta, delta, T, lnps)
+  if mode == 'symmetry':
+    alg = ML.Algebra(opaque={'equilibrium_temperature', 'nodal_exp', 'nodal_reciprocal'})
+    for sym, pre, zsign, op_sign in (('mirror', 'm_', -1, {'cos_lat_d_dlat': -1, 'sec_lat_d_dlat_cos2': -1}), ('rotation', 'r_', +1, {})):
+      tz, td, tt, tp = (C(pre + n) for n in ('zeta', 'delta', 'T', 'lnps'))
+      outT = run(W.NEG(tz) if zsign < 0 else tz, td, tt, tp)
+      atom_map = {'zeta': tz, 'delta': td, 'T': tt, 'lnps': tp, 'kv': KV, 'kt': KT, 'cos_lat': COSL, 'T_ref': TREF, 'nodal_one': ONE}
+      for f in FIELDS:
+        img = ML.transform(getattr(out, f), atom_map, op_sign, W.NEG)
+        if f == 'vorticity' and zsign < 0:
+          img = W.NEG(img)
+        ok, why = alg.equal(getattr(outT, f), img)
+        en.results.append(E.ObligationResult(f'Held-Suarez, {sym}: explicit_terms(T x).{f} == T explicit_terms(x).{f}', 'valid' if ok else 'invalid', back_end='multilinear-normal-form', detail=why))
+    return
+  if mode == 'dimension':
+    dims = dict(ATOM_DIMS, kv=(0, -1, 0), kt=(0, -1, 0), cos_lat=DIM0)
+    for nm, term, d in (('vorticity', out.vorticity, (0, -1, 0)), ('divergence', out.divergence, (0, -1, 0)), ('temperature_variation', out.temperature_variation, TEMP),
+                        ('log_surface_pressure', out.log_surface_pressure, DIM0)):
+      try:
+        got = field_dim(term, dims)
+        ok, why = (got is ZERO or got == _dmul(d, (0, -1, 0))), f'dimension (length, time, temperature) = {got}'
+      except DimensionError as e:
+        ok, why = False, str(e)
+      en.results.append(E.ObligationResult(f'Held-Suarez: the {nm} tendency is dimensionally homogeneous with dimension [{nm}] / time', 'valid' if ok else 'invalid', back_end='dimension-typing', detail=why))
     return
   u0, u1 = W._wind_spec(zeta, delta, r, False)                                  # compute_diagnostic_state takes the wind with clip=False
   drag = lambda c: W.TOM(W.NMUL(W.NMUL(W.NEG(KV), W.TON(c)), RECIP(W.NMUL(COSL, COSL))))
@@ -281,9 +308,15 @@ def held_suarez_contract(en: E.Engine):
                                        back_end='multilinear-normal-form'))
 
 
-def held_suarez_clauses():
-  rc = lambda c, n=2: (lambda ctx: run_contract(c, min_obligations=n, setup=_setup, timeout_ms=30000, max_paths=50))
+def held_suarez_clauses(which='C20'):
+  rc = lambda c, n=2, **kw: (lambda ctx: run_contract((lambda en: c(en, **kw)) if kw else c, min_obligations=n, setup=_setup, timeout_ms=30000, max_paths=50))
   H = 'dinosaur.held_suarez.HeldSuarezForcing.'
+  if which == 'C10':
+    return [Clause('smt:HeldSuarezForcing.explicit_terms equivariant under the equatorial mirror and under rotations as an operator expression (all fields, sizes)', 'smt', [H + 'explicit_terms'],
+                   rc(held_suarez_contract, 8, mode='symmetry'), group='pyvc')]
+  if which == 'C12':
+    return [Clause('smt:Held-Suarez tendencies are dimensionally homogeneous ([field] / time) as operator expressions (all fields, sizes)', 'smt', [H + 'explicit_terms'],
+                   rc(held_suarez_contract, 4, mode='dimension'), group='pyvc')]
   return [Clause('smt:HeldSuarezForcing.explicit_terms == Rayleigh drag on the unclipped wind and Newtonian relaxation as an operator expression; pressure and tracer tendencies zero (all fields, sizes)', 'smt',
                  [H + 'explicit_terms', 'dinosaur.primitive_equations.compute_diagnostic_state'], rc(held_suarez_contract, 4), group='pyvc')]
 
@@ -377,6 +410,12 @@ def _field_dim(t, atom_dims, memo):
     return _dmul(field_dim(ch[0], atom_dims, memo), field_dim(ch[1], atom_dims, memo))
   if name == 'nodal_reciprocal':
     return _dinv(field_dim(ch[0], atom_dims, memo))
+  if name == 'nodal_exp':
+    if field_dim(ch[0], atom_dims, memo) not in (DIM0, ZERO):
+      raise DimensionError('exp of a dimensional quantity')
+    return DIM0
+  if name == 'equilibrium_temperature':
+    return TEMP                           # T_eq(p / p0): a temperature (its formula is a coefficient clause of C20)
   if name == 't_omega_over_sigma_sp':
     dg, dv = field_dim(ch[1], atom_dims, memo), field_dim(ch[2], atom_dims, memo)
     if dg != dv:
